@@ -30,15 +30,16 @@ from . import c18_clocks as CK
 from . import c18_crdt as CR
 
 SPEC = tlc.SPECS / "clocks"
-CLOCK_INVS = ["InvLamport", "InvHLC", "InvVCForward", "InvVCBackward"]
+CLOCK_INVS = ["InvLamport", "InvHLC", "InvVCForward", "InvVCBackward", "InvKeys"]
 CRDT_INVS = ["InvCounterValue", "InvORValue", "InvLWWValue", "InvConverge", "InvMergeCommutative",
              "InvMergeIdempotent", "InvMergeAssociative"]
 # deviation -> (invariant that must catch it, known-finding key)
 CLOCK_DEVS = {"lamport_recv_no_increment": "InvLamport", "vc_recv_no_increment": "InvVCForward",
-              "hlc_recv_ignores_remote": "InvHLC"}
+              "hlc_recv_ignores_remote": "InvHLC", "vc_compare_own_keys_only": "InvVCForward"}
+MEM3 = ("all", "prefix", "self")
 CRDT_DEVS = {"orset_remove_without_tombstone": "InvORValue", "to_dict_stringifies_elements": "InvORValue",
              "store_adopts_remote_node_id": "InvCounterValue", "gcounter_merge_adds": "InvMergeIdempotent",
-             "lww_merge_takes_remote": "InvMergeCommutative"}
+             "lww_merge_takes_remote": "InvMergeCommutative", "lww_merge_skips_none_value": "InvMergeCommutative"}
 KEY = {"orset_remove_without_tombstone": "orset_removed_element_resurrected_by_merge",
        "to_dict_stringifies_elements": "orset_roundtrip_stringifies_elements",
        "store_adopts_remote_node_id": "crdtstore_new_key_adopts_remote_node_id"}
@@ -54,8 +55,8 @@ def S(xs):
     return "{" + ",".join(f'"{d}"' for d in xs) + "}"
 
 
-def clock_consts(nn, me, mp, dev=()):
-    return {"NN": nn, "MaxEv": me, "MaxPT": mp, "Dev": S(dev)}
+def clock_consts(nn, me, mp, dev=(), mems=("all",)):
+    return {"NN": nn, "MaxEv": me, "MaxPT": mp, "Mems": S(mems), "Dev": S(dev)}
 
 
 def crdt_consts(nr, kinds, elems, steps, *, store=False, dup=False, dev=(), maxinc=1, mp=1, ml=0,
@@ -87,18 +88,19 @@ def mc_jobs(tier):
     q = tier == "quick"
     K4 = ["G", "PN", "LWW", "OR"]
     clean = [
-        ("Clocks Dev={} 3 nodes", "Clocks.tla", clock_consts(3, 4 if q else 5, 1), CLOCK_INVS),
-        ("Clocks Dev={} 2 nodes", "Clocks.tla", clock_consts(2, 4 if q else 5, 2), CLOCK_INVS),
+        ("Clocks Dev={} 3 nodes", "Clocks.tla", clock_consts(3, 4 if q else 5, 1, mems=("all", "self")), CLOCK_INVS),
+        ("Clocks Dev={} 2 nodes", "Clocks.tla", clock_consts(2, 4 if q else 5, 1 if q else 2, mems=("all", "prefix")), CLOCK_INVS),
         ("Crdt Dev={} store 2 replicas", "Crdt.tla",
          crdt_consts(2, ["G", "OR"] if q else ["G", "PN", "OR"], ["x"], 5 if q else 6, store=True, dup=True),
          CRDT_INVS),
         ("Crdt Dev={} plain 2 replicas all kinds", "Crdt.tla",
-         crdt_consts(2, K4, ["x"] if q else ["x", "y"], 4 if q else 5, maxinc=1 if q else 2), CRDT_INVS),
+         crdt_consts(2, K4, ["x"] if q else ["x", "y"], 4 if q else 5, maxinc=1 if q else 2,
+                     vals=("a", "none") if q else ("a", "b", "none")), CRDT_INVS),
         ("Crdt Dev={} plain 3 replicas", "Crdt.tla",
          crdt_consts(3, K4 if not q else ["OR", "G"], ["x"], 4 if q else 5), CRDT_INVS),
     ]
     if not q:
-        clean.append(("Clocks Dev={} 4 nodes", "Clocks.tla", clock_consts(4, 4, 1), CLOCK_INVS))
+        clean.append(("Clocks Dev={} 4 nodes", "Clocks.tla", clock_consts(4, 4, 1, mems=("prefix", "self")), CLOCK_INVS))
         clean.append(("Crdt Dev={} store 2 replicas G 7 steps", "Crdt.tla",
                       crdt_consts(2, ["G"], ["x"], 7, store=True), CRDT_INVS))
         clean.append(("Crdt Dev={} plain OR int element", "Crdt.tla",
@@ -116,8 +118,10 @@ def mc_jobs(tier):
          CRDT_INVS),
         ("lww_merge_takes_remote", "Crdt.tla", crdt_consts(2, ["LWW"], ["x"], 4, dev=["lww_merge_takes_remote"]),
          CRDT_INVS),
+        ("lww_merge_skips_none_value", "Crdt.tla",
+         crdt_consts(2, ["LWW"], ["x"], 4, dev=["lww_merge_skips_none_value"], vals=("a", "none")), CRDT_INVS),
     ]
-    sens += [(d, "Clocks.tla", clock_consts(2, 3, 1, [d]), CLOCK_INVS) for d in CLOCK_DEVS]
+    sens += [(d, "Clocks.tla", clock_consts(2, 3, 1, [d], mems=("all", "self")), CLOCK_INVS) for d in CLOCK_DEVS]
     jobs = [(n, m, c, i, None, f"C18_mc{k}") for k, (n, m, c, i) in enumerate(clean)]
     jobs += [(n, m, c, i, None, f"C18_sens{k}") for k, (n, m, c, i) in enumerate(sens)]
     return jobs
@@ -172,7 +176,7 @@ def tour_confs(tier, dev):
     K4 = ["G", "PN", "LWW", "OR"]
     confs = [
         ("store2", 2, crdt_consts(2, ["G", "OR"], ["x"], 4 if q else 6, store=True, dup=True, dev=dev), True, ["x"]),
-        ("plain2", 2, crdt_consts(2, K4, ["x"], 4, dev=dev), False, ["x"]),
+        ("plain2", 2, crdt_consts(2, K4, ["x"], 4, dev=dev, vals=("a", "none")), False, ["x"]),
         ("plain2_int", 2, crdt_consts(2, ["OR"], ["#1"], 4, dev=dev), False, ["#1", "1"]),
         ("plain3_or", 3, crdt_consts(3, ["OR", "G"], ["x"], 3 if q else 4, dev=dev), False, ["x"]),
     ]
@@ -234,7 +238,7 @@ def hist_consume(chk, confs, results):
 # 3. random / adversarial schedules beyond the model's bounds
 
 def random_plain(rng, kind, nr, ne):
-    el = rng.choice((["x"], ["x", "y"], ["x", "y", "z"], ["#1", "1", "x"]))
+    el = rng.choice((["x"], ["x", "y"], ["x", "y", "z"], ["#1", "1", "x"], ["#0", "@empty", "x"]))
     addable = [e for e in el if e != "1"]
     acts, used = [], set()
     style = rng.random()
@@ -251,7 +255,7 @@ def random_plain(rng, kind, nr, ne):
                     p, l = rng.randint(0, 3), rng.randint(0, 2)
                     if (p, l, r) not in used:
                         used.add((p, l, r))
-                        acts.append(["set", r, rng.choice(("a", "b", "c")), p, l])
+                        acts.append(["set", r, rng.choice(("a", "b", "none", "none", "@0", "@empty", "@False")), p, l])
                         break
             else:
                 acts.append([rng.choice(("add", "add", "rem")), r, rng.choice(addable)])
@@ -314,8 +318,8 @@ def validate(module, traces, label, chunk):
     wd.mkdir(parents=True, exist_ok=True)
     consts = None
     if module == "CrdtTrace.tla":
-        consts = crdt_consts(CR.NRMAX, ["G", "PN", "LWW", "OR"], ["x", "y", "z", "#1"], 0, dup=True,
-                             vals=("a", "b", "c"))
+        consts = crdt_consts(CR.NRMAX, ["G", "PN", "LWW", "OR"], ["x", "y", "z", "#1", "#0", "@empty"], 0,
+                             dup=True, vals=("a", "b", "none"))
     else:
         consts = clock_consts(1, 0, 0)
     parts = [traces[k:k + chunk] for k in range(0, len(traces), chunk)]
@@ -409,7 +413,7 @@ def run(tier, seed, replay=None):
         try:
             if origin == "random_simulation":
                 pts, L, V, H, ids = CK.run_history_sim(nn, events, kw["models"], kw["true_times"],
-                                                       kw.get("serialise", False))
+                                                       kw.get("serialise", False), kw.get("member"))
             else:
                 pts, L, V, H, ids = CK.run_history(nn, events, **kw)
         except CK.HarnessLimit as ex:
@@ -420,14 +424,15 @@ def run(tier, seed, replay=None):
                           {"half": "clocks", "nn": nn, "events": events, "origin": origin})
             return
         try:
-            ctraces.append(CK.to_trace(tid, nn, events, pts, L, V, H, ids))
+            ctraces.append(CK.to_trace(tid, nn, events, pts, L, V, H, ids, kw.get("member")))
         except CK.HarnessLimit as ex:
             chk.note_drift(f"clock recorder: {ex}")
             return
         cmeta[tid] = {"half": "clocks", "origin": origin, "nn": nn, "events": [list(e) for e in events],
                       "readings_ns": pts,
                       "models": CK.describe_models(kw["models"]) if kw.get("models") else None,
-                      "true_times": kw.get("true_times"), "serialise": kw.get("serialise", False)}
+                      "true_times": kw.get("true_times"), "serialise": kw.get("serialise", False),
+                      "member": kw.get("member")}
         chk.impl_steps += len(events)
 
     if cached:
@@ -446,13 +451,14 @@ def run(tier, seed, replay=None):
     for i, (nn, h) in enumerate(chosen):
         sc = scales[i % len(scales)]
         clock_exec(nn, [(n, k, s) for (n, k, s, p) in h], "model", readings=[p * sc for (_, _, _, p) in h],
-                   serialise=(i % 2 == 1))
+                   serialise=(i % 2 == 1), member=CK.membership(MEM3[i % 3], nn))
         chk.replays += 1
     n_rand = 400 if q else 8000
     for i in range(n_rand):
         nn = 2 + i % 4
         ne = rng.randint(4, 14 if q else 30)
         events = CK.random_history(rng, nn, ne, burst=(i % 3 == 0))
+        member = CK.membership(("self", "prefix", "random", "all", "self")[i % 5], nn, rng)
         if i % 2 == 0:
             # NodeClock skew / drift over one true clock (true time non-decreasing, bursts at one instant)
             t, tt = 0, []
@@ -460,12 +466,12 @@ def run(tier, seed, replay=None):
                 t += rng.choice((0, 0, 1, 999, 10**6, 10**9, 7 * 10**9))
                 tt.append(t)
             clock_exec(nn, events, "random_simulation" if i % 4 == 2 else "random_nodeclock",
-                       models=CK.random_models(rng, nn), true_times=tt, serialise=(i % 4 == 0))
+                       models=CK.random_models(rng, nn), true_times=tt, serialise=(i % 4 == 0), member=member)
         else:
             # arbitrary readings, also stepping backwards
             base = rng.choice((0, 5, 10**9))
             rd = [base + rng.choice((0, 0, 1, 2, 3, 10, 10**6)) * rng.choice((1, 1, 1000)) for _ in events]
-            clock_exec(nn, events, "random_wall", readings=rd, serialise=(i % 3 == 0))
+            clock_exec(nn, events, "random_wall", readings=rd, serialise=(i % 3 == 0), member=member)
 
     # ---------------- CRDTs ----------------
     traces, meta = [], {}
@@ -603,7 +609,7 @@ def do_replay(chk, path):
     mt = rp["meta"] if "meta" in rp else rp
     if mt.get("half") == "clocks":
         events = [tuple(e) for e in mt["events"]]
-        kw = {"serialise": mt.get("serialise", False)}
+        kw = {"serialise": mt.get("serialise", False), "member": mt.get("member")}
         if mt.get("models"):
             from happysimulator.core.node_clock import FixedSkew, LinearDrift
             from happysimulator.core.temporal import Duration
@@ -618,8 +624,12 @@ def do_replay(chk, path):
             kw.update(models=ms, true_times=mt["true_times"])
         else:
             kw.update(readings=mt["readings_ns"])
-        pts, L, V, H, ids = CK.run_history(mt["nn"], events, **kw)
-        tr = CK.to_trace(1, mt["nn"], events, pts, L, V, H, ids)
+        if mt.get("origin") == "random_simulation":
+            pts, L, V, H, ids = CK.run_history_sim(mt["nn"], events, kw["models"], kw["true_times"],
+                                                   kw["serialise"], kw["member"])
+        else:
+            pts, L, V, H, ids = CK.run_history(mt["nn"], events, **kw)
+        tr = CK.to_trace(1, mt["nn"], events, pts, L, V, H, ids, kw["member"])
         v, m, res = validate("ClocksTrace.tla", [tr], "C18_replay", 10)
         verdict, pos = v[1]
         if verdict.startswith("PROP:"):
